@@ -127,7 +127,7 @@ fn field_json(db: &LayoutDb, f: &SField, blk: &[u8]) -> Result<Value, String> {
 }
 
 /// The JSON the specification's field map prescribes for a Game Start block; Err = must be rejected.
-fn expected_start_json(db: &LayoutDb, blk: &[u8], ngroups: usize) -> Result<Value, String> {
+pub fn expected_start_json(db: &LayoutDb, blk: &[u8], ngroups: usize) -> Result<Value, String> {
 	let present = |g: &str| db.blocks.start_groups.iter().position(|x| x.name == g).map_or(false, |i| i < ngroups);
 	let mut root = json!({});
 	for f in &db.blocks.start_global {
@@ -164,7 +164,7 @@ fn expected_start_json(db: &LayoutDb, blk: &[u8], ngroups: usize) -> Result<Valu
 	Ok(root)
 }
 
-fn expected_end_json(db: &LayoutDb, blk: &[u8], ngroups: usize) -> Result<Value, String> {
+pub fn expected_end_json(db: &LayoutDb, blk: &[u8], ngroups: usize) -> Result<Value, String> {
 	let present = |g: &str| db.blocks.end_groups.iter().position(|x| x.name == g).map_or(false, |i| i < ngroups);
 	let mut root = json!({});
 	let mut placements: Vec<(usize, i8)> = vec![];
@@ -188,7 +188,7 @@ fn expected_end_json(db: &LayoutDb, blk: &[u8], ngroups: usize) -> Result<Value,
 	Ok(root)
 }
 
-fn render<T: serde::Serialize>(x: &T) -> Value {
+pub fn render<T: serde::Serialize>(x: &T) -> Value {
 	serde_json::from_slice(&serde_json::to_vec(x).unwrap()).unwrap()
 }
 
@@ -239,7 +239,7 @@ fn check_start_block(db: &LayoutDb, blk: &[u8], ngroups: i64, cls: &str, sink: &
 	}
 }
 
-fn diff_json(a: &Value, b: &Value, path: &str) -> String {
+pub fn diff_json(a: &Value, b: &Value, path: &str) -> String {
 	match (a, b) {
 		(Value::Object(x), Value::Object(y)) => {
 			for (k, v) in x {
